@@ -319,6 +319,12 @@ def materialize(cfg, root):
     order = cfg.get("file_order")
     if order:
         files = [files[i] for i in order]
+    # optional extra input files {name: text} (e.g. the sample file of a "sample" quantification type)
+    for name, text in (cfg.get("extra_inputs") or {}).items():
+        path = os.path.join(in_dir, name)
+        if not os.path.exists(path):
+            with open(path, "w") as fh:
+                fh.write(text)
     return files, in_dir, out_dir
 
 
